@@ -8,6 +8,10 @@
 (* are handed to discover_services again and again (DiscoverServicesBuf) and changed in place by the     *)
 (* caller (CallerMutates); only CallerMutates (and the reading of a one-shot iterator) may move them, and *)
 (* CallerMutates moves nothing else.                                                                     *)
+(* remove_peer is logged with the object it was given (e.pa = 0: the stored object of a verified peer; else a fresh *)
+(* Peer of key e.p at address e.pa, for verified and not verified peers alike); adv - the history of what was handed  *)
+(* to discover_services since the last removal - is not logged: it follows the logged calls, and HistoryAgrees is     *)
+(* checked in every state of every accepted history.                                                                   *)
 EXTENDS Network, Json, IOUtils, TLCExt
 
 Traces == JsonDeserialize(IOEnv.TRACE_FILE)
@@ -27,7 +31,7 @@ Call(e) ==
   \/ e.op = "DiscoverServicesBuf"  /\ DiscoverServicesBuf(e.p, e.pa, e.b)
   \/ e.op = "CallerMutates"        /\ CallerMutates(e.b, Range(e.ss))
   \/ e.op = "RemoveByAddress"      /\ RemoveByAddress(e.a)
-  \/ e.op = "RemovePeer"           /\ RemovePeer(e.p)
+  \/ e.op = "RemovePeer"           /\ RemovePeer(e.p, e.pa)        \* pa = 0: the stored object, else another object of the key
   \/ e.op = "LoadSnapshot"         /\ LoadSnapshot(Range(e.ss))
   \/ e.op = "GetByAddress"         /\ \E q \in 0..NP : Range(e.ret) = (IF q = 0 THEN {} ELSE {q}) /\ GetByAddressG(e.a, q, FALSE)
   \/ e.op = "GetByKey"             /\ GetByKey(e.p)
